@@ -179,6 +179,22 @@ def general_queries(t):
         "Select(Select(Select(ds, lambda e: (lambda a, b: a - b)(e.met, b=Count(e.jets))), lambda v: v + 2), lambda w: (lambda a, b: a * 10 + b)(w + w, b=3 if 0 < 1 else w))",
         "Where(Select(ds, lambda e: (lambda a, b=2: a - b)(e.met)), lambda v: (lambda a, b=5: a > b)(v))",
     ]
+    # inside one `lambda e`: FIRST something that pushes and pops a frame whose definition
+    # mentions e (a called lambda, a Select-of-Select / Where-of-Select fusion), THEN a nested
+    # lambda that re-uses the name e as the f of a fusion whose following lambda mentions the
+    # OUTER e (seed C02_f: the set of names in flight forgot e when the inner frame was popped)
+    extra += [
+        "Select(ds, lambda e: (Select(Select(e.jets, lambda j: j.pt + e.met), lambda n: n * 2), "
+        "Select(SelectMany(e.jets, lambda e: e.tracks), lambda t: t.pt + e.met)))",
+        "Select(ds, lambda e: ((lambda a: a + 1)(e.met), "
+        "Select(SelectMany(e.jets, lambda e: e.tracks), lambda t: t.pt + e.met)))",
+        "Select(ds, lambda e: (Count(Where(Select(e.jets, lambda j: j.pt + e.met), lambda n: n > 0)), "
+        "Where(SelectMany(e.jets, lambda e: e.tracks), lambda t: t.pt > e.met)))",
+        "Select(ds, lambda e: (Select(Select(e.jets, lambda j: j.pt - e.met), lambda n: n), "
+        "SelectMany(SelectMany(e.jets, lambda e: [e]), lambda q: Select(q.tracks, lambda t: t.pt * e.met))))",
+        "Select(ds, lambda e: (Select(SelectMany(e.jets, lambda e: e.tracks), lambda t: t.pt + e.met), "
+        "(lambda a: a)(e.met), Select(SelectMany(e.jets, lambda e: e.tracks), lambda t: t.pt - e.met)))",
+    ]
     out += [(s, "hand") for s in extra]
     out += packaging_chains()
     # random deep queries: nested operators, closures, called lambdas, packaging + projection,
